@@ -7,7 +7,9 @@ MANIFEST = dict(
          "exact), getters form a last-write map, option containers obey search/add/remove laws, typed option codecs are inverse under explicit "
          "representability predicates (each excluded point executed on the real code: rejected, or recorded as a known finding with a machine-"
          "checked refutation). API histories run on the real classes and on the model; getters must agree after every step and the wire round "
-         "trip must preserve the view.",
+         "trip must preserve the view. Wire half for whole packets: built_packet_reparse (any representable stack of the seven families, "
+         "once serialized, is parsed back to the same classes and views). Oracle clauses on the implementation's own output: view preserved, "
+         "serialize repeatable, typed getter returns the first value set for verbatim options.",
     note="The theorems are about hand-written, code-shaped Lean models of 53 entry classes in seven families (link layers, IPv4 + options / AH / ESP, "
          "IPv6 + extension headers, TCP + options / UDP, ICMP / ICMPv6 + extensions, DHCP / DHCPv6 / BootP / RTP / VXLAN / ARP / STP, 802.11 / "
          "RadioTap / EAPOL; list in the evidence: modelled_classes); the tie to the C++ is differential correspondence of every line under "
